@@ -157,6 +157,15 @@ func (x *Ctx) checkRebased(fn *ssa.Function, raw, low, whole ssa.Value, ownIdx i
 		bi, ok := c.Call.Value.(*ssa.Builtin)
 		return ok && bi.Name() == "len" && len(c.Call.Args) == 1 && c.Call.Args[0] == whole
 	}
+	// a constant start (data[1:]) is the same start wherever the constant is written again
+	sameLow := func(v ssa.Value) bool {
+		if v == low {
+			return true
+		}
+		a, ok1 := constBig(v)
+		b, ok2 := constBig(low)
+		return ok1 && ok2 && a.Cmp(b) == 0
+	}
 	for len(work) > 0 && problem == "" {
 		v := work[len(work)-1]
 		work = work[:len(work)-1]
@@ -174,12 +183,14 @@ func (x *Ctx) checkRebased(fn *ssa.Function, raw, low, whole ssa.Value, ownIdx i
 				}
 				switch u.Op {
 				case token.ADD:
-					if v == low && state[other] == 1 {
+					if sameLow(v) && state[other] == 1 {
 						// the slice's start (itself a re-based position when the call sits in a loop) plus the relative offset
 						set(u, 2)
-					} else if other == low {
+					} else if sameLow(other) {
 						if s == 1 {
 							set(u, 2)
+						} else if _, isConst := other.(*ssa.Const); isConst {
+							set(u, s) // a re-based position plus a constant that happens to equal a constant start
 						} else {
 							problem = "the slice's start is added to the callee's offset twice"
 						}
